@@ -201,7 +201,7 @@ func (c *Ctx) finish(writeEvidence bool) {
 	sort.Slice(c.violations, func(i, j int) bool { return c.violations[i].Key < c.violations[j].Key })
 	os.MkdirAll(filepath.Join(VerifDir, "replays"), 0o755)
 	for i, v := range c.violations {
-		if i >= 20 {
+		if i >= 5 {
 			break
 		}
 		p := filepath.Join(VerifDir, "replays", fmt.Sprintf("%s-%d.json", c.ID, i))
@@ -247,3 +247,5 @@ func (c *Ctx) finish(writeEvidence bool) {
 	}
 	os.Exit(0)
 }
+
+func (c *Ctx) CapsHit() []string { c.mu.Lock(); defer c.mu.Unlock(); return append([]string{}, c.capped...) }
